@@ -22,6 +22,7 @@ class O:
     ref: Optional["O"] = None
     s: frozenset = frozenset()
     w: Optional[int] = None
+    pos: tuple = ()          # the stored counterpart of the computed `pair`: one tuple object per world edit
 
     def __repr__(self):
         return self.name
@@ -53,6 +54,7 @@ def make_world():
         o.ref = w[ref[n]]
         o.s = sets[n]
         o.w = {"o1": 0, "o2": 1, "o3": None, "o4": 1}[n]
+        o.pos = (o.a, o.b)
     return w
 
 
@@ -60,6 +62,8 @@ def edit_world(on):
     """The in-place edit of EQLCore's second world (o1.a := 1, o4.b := 0), and its undo."""
     WORLD["o1"].a = 1 if on else 0
     WORLD["o4"].b = 0 if on else 1
+    for o in WORLD.values():
+        o.pos = (o.a, o.b)
 
 
 WORLD = make_world()
